@@ -1,3 +1,8 @@
+// math/rand's top-level functions are used by rcproxy (replica pick, probe target). Since Go 1.24 rand.Seed is a no-op
+// unless this setting is given, and the unseeded global source draws from runtime.rand(), which the overlay pins per poll:
+// every pick within one poll would be identical. With the setting the harness seeds an ordinary PRNG from the run seed.
+//
+//go:debug randseednop=0
 package simrun
 
 import (
